@@ -81,8 +81,12 @@ class Check:
                 seen_known.setdefault(k, []).append(o)
             else:
                 viol.append(o)
-        os.makedirs(os.path.join(VERIF, "replays"), exist_ok=True)
-        os.makedirs(os.path.join(VERIF, "evidence"), exist_ok=True)
+        OUT = VERIF
+        if os.environ.get("HIFI_REPO") or os.environ.get("HIFI_CONFIG", "debug") != "debug":
+            # a mutated scratch copy / another configuration is being analysed: never overwrite what was produced from /repo
+            OUT = os.environ.get("VERIF_SCRATCH_OUT") or os.path.join(VERIF, ".cache", "scratch-out")
+        os.makedirs(os.path.join(OUT, "replays"), exist_ok=True)
+        os.makedirs(os.path.join(OUT, "evidence"), exist_ok=True)
         lines = []
         for k, os_ in seen_known.items():
             lines.append("KNOWN-FINDING: property=%s %s -- %s (%d obligation instance(s))" % (
@@ -94,7 +98,7 @@ class Check:
                 continue
             printed.add(k)
             h = hashlib.sha256(k.encode()).hexdigest()[:12]
-            rp = os.path.join(VERIF, "replays", "%s-%s.json" % (self.pid, h))
+            rp = os.path.join(OUT, "replays", "%s-%s.json" % (self.pid, h))
             same = [x for x in viol if self.key(x) == k]
             with open(rp, "w") as f:
                 json.dump({"property": self.pid, "key": k, "obligations": same[:20], "count": len(same),
@@ -107,7 +111,7 @@ class Check:
                 lines.append("  (this violation was recorded as fixed in known_findings.json and has returned)")
         if self.errors:
             # fail closed: a missing anchor / floor is reported as a violation of the property
-            rp = os.path.join(VERIF, "replays", "%s-errors.json" % self.pid)
+            rp = os.path.join(OUT, "replays", "%s-errors.json" % self.pid)
             with open(rp, "w") as f:
                 json.dump({"property": self.pid, "errors": self.errors}, f, indent=1)
             lines.append("VIOLATION property=%s replay=%s" % (self.pid, rp))
@@ -153,7 +157,7 @@ class Check:
             "wall_s": round(wall, 3),
             "violations": len(printed) + (1 if self.errors else 0),
         }
-        with open(os.path.join(VERIF, "evidence", "%s.json" % self.pid), "w") as f:
+        with open(os.path.join(OUT, "evidence", "%s.json" % self.pid), "w") as f:
             json.dump(ev, f, indent=1, default=str)
         for r, v in sorted(by_rule.items()):
             print("[%s] %s: %d/%d obligations discharged" % (self.pid, r, v["discharged"], v["obligations"]))
